@@ -843,7 +843,7 @@ def dom_guard_rule(ctx):
 
 register(
     "C09",
-    [c09_pin, floor_rule, tail_rule, clamp_rule],
+    [c09_pin, floor_rule, tail_rule, clamp_rule, c17_eps],
     "Family template over linear / quadratic / cubic / rational-quadratic splines and their unconstrained wrappers, decided on "
     "the symbolic expansion of each function under inverse=False and inverse=True. SPL-PIN: every searched knot vector has its "
     "first and last element stored exactly (0/1 for unit knots; the box arguments for scaled knots) through F.pad / explicit "
@@ -852,7 +852,9 @@ register(
     "and the RQ knot derivatives are positive for every parameter value, with the ValueError guards that make 1 - m*K >= 0. "
     "SPL-TAIL: closed inside mask on one bound, provably complementary outside mask, identity and zero log-det outside, inner "
     "spline on the square box in the same symbol, hyper-parameters and the boundary-derivative constant forwarded. SPL-CLAMP: "
-    "clamp to [0,1] before de-normalisation (linear, quadratic) and the floor-index repair. Continuity and strict monotonicity "
+    "clamp to [0,1] before de-normalisation (linear, quadratic) and the floor-index repair. EPS-UNITS (shared with C17): the "
+    "right-edge epsilon of the bin search has the units of the knots it is added to, so the upper end-point falls into the last "
+    "bin for every box. Continuity and strict monotonicity "
     "across bins for all parameter values (inequalities between computed numbers) are out of reach and NOT claimed.",
     [A_CFG, T_OPS],
 )
